@@ -631,8 +631,9 @@ class SVGPath(SVGShape, SVGCommandSeq):
                     prev_cmd, prev_args = _relative_to_absolute(
                         prev_pos, prev_cmd, prev_args
                     )
-                if prev_cmd in short_to_long.values():
-                    # reflect 2nd-last x,y pair over curr_pos and make it our first arg
+                if prev_cmd == short_to_long[cmd]:
+                    # only a curve of the same family (C for S, Q for T) has a control
+                    # point to reflect: 2nd-last x,y pair over curr_pos is our first arg
                     prev_cp = Point(prev_args[-4], prev_args[-3])
                     new_cp = (2 * curr_pos.x - prev_cp.x, 2 * curr_pos.y - prev_cp.y)
 
